@@ -12,10 +12,13 @@ struct E64 { unsigned char b[64]; };
 struct E4096 { unsigned char b[4096]; };
 
 struct Arena {
+    static const std::size_t TAIL = std::size_t(40) << 20;
     unsigned char* base;  // 6 pages: [0] PROT_NONE, [1..3] data, [4] read-only, [5] PROT_NONE
     std::uint64_t sum0;
     Arena() {
-        base = static_cast<unsigned char*>(mmap(0, 6 * PAGE, PROT_READ | PROT_WRITE, MAP_PRIVATE | MAP_ANONYMOUS, -1, 0));
+        // the six pages are followed by TAIL bytes of reserved, inaccessible address space, so that very large counts stay inside memory this harness owns
+        base = static_cast<unsigned char*>(mmap(0, 6 * PAGE + TAIL, PROT_NONE, MAP_PRIVATE | MAP_ANONYMOUS | MAP_NORESERVE, -1, 0));
+        mprotect(base, 6 * PAGE, PROT_READ | PROT_WRITE);
         for (std::size_t i = 0; i < 6 * PAGE; ++i) base[i] = static_cast<unsigned char>(mix(i) >> 13);
         sum0 = checksum_open();
         protect();
@@ -32,7 +35,7 @@ struct Book {
     Stat& st(const std::string& op) {
         std::map<std::string, Stat*>::iterator it = stats.find(op);
         if (it != stats.end()) return *it->second;
-        Stat& s = new_stat("prefetch", op, "pointer regions {valid, last line before PROT_NONE, inside PROT_NONE, read-only, null, non-canonical} x every byte offset of a 64-byte line x counts {0,1,63,64,65,4095,4096,4097,3 pages}");
+        Stat& s = new_stat("prefetch", op, "pointer regions {valid, last line before PROT_NONE, inside PROT_NONE, read-only, null, non-canonical} x every byte offset of a 64-byte line x counts {65537, 262145, 300000, 2^20+3, 2^24+7 at two offsets; 0,1,63,64,65,4095,4096,4097,3 pages}");
         stats[op] = &s;
         return s;
     }
@@ -92,6 +95,27 @@ inline void run_one(const char* tname) {
                 if (sig) {
                     ++s.fails;
                     s.fp += hcomb(hcomb(r, off), c);
+                    if (s.witnesses.size() < 4) {
+                        char b[200];
+                        std::snprintf(b, sizeof b, "{\"signal\":%d,\"region\":\"%s\",\"offset\":%u,\"n\":%llu,\"args\":[]}", sig, regions[r].name, off, (unsigned long long)n);
+                        add_witness(s, b);
+                    }
+                }
+            }
+    // very large counts (seeds C20-b/C20-c: a 'warm the TLB' loop that really loads once per page above some threshold): two offsets per region
+    const std::size_t big[] = {65537, 262145, 300000, (std::size_t(1) << 20) + 3, (std::size_t(1) << 24) + 7};
+    const unsigned boffs[] = {0, 37};
+    for (unsigned r = 0; r < sizeof(regions) / sizeof(regions[0]); ++r)
+        for (unsigned oi = 0; oi < 2; ++oi)
+            for (unsigned c = 0; c < sizeof(big) / sizeof(big[0]); ++c) {
+                const unsigned off = boffs[oi];
+                std::size_t n = std::is_void<T>::value ? big[c] : (big[c] + esz - 1) / esz;
+                Call<KIND, LEVEL, T> call = {regions[r].p ? regions[r].p + off : reinterpret_cast<unsigned char*>(std::uintptr_t(off)), n};
+                int sig = guarded(call);
+                ++s.evals; ++s.distinct; ++s.nontrivial;
+                if (sig) {
+                    ++s.fails;
+                    s.fp += hcomb(hcomb(r + 100, off), c);
                     if (s.witnesses.size() < 4) {
                         char b[200];
                         std::snprintf(b, sizeof b, "{\"signal\":%d,\"region\":\"%s\",\"offset\":%u,\"n\":%llu,\"args\":[]}", sig, regions[r].name, off, (unsigned long long)n);
